@@ -213,6 +213,18 @@ def guard_obligation(ctx, col: Collector, rule: str, fi: FuncInfo, name: str,
                         gnodes[id(ev.node)] = ev.node
                 except Exception:
                     pass
+    if not gnodes and not getattr(ctx, '_flipped_guard', False):
+        # the same check may be spelled with the opposite polarity (`if x not in c: raise` vs `if x in c: ... else: raise`)
+        ctx._flipped_guard = True
+        try:
+            probe = Collector(col.prop)
+            okp = guard_obligation(ctx, probe, rule, fi, name, lit_match, exc_ids, protect, what, subst_locals, require_loop_over,
+                                   mutation_pred, not when, _inlined=True)
+        finally:
+            ctx._flipped_guard = False
+        if any(o.construct.endswith(':present') and o.status == 'discharged' for o in probe.obs):
+            col.obs.extend(probe.obs)
+            return okp
     if not gnodes and not _inlined:
         # second look with small helpers inlined (extract-method refactorings)
         from ..inline import inlined_info
